@@ -301,7 +301,8 @@ KINDS = ("none", "in_trunc", "in_eio", "in_missing", "out_err", "refine", "timeo
 # legal on their own; a combination may be refused (several are: bxkappa, shiftedmetric
 # False, x-y derivative curvature on a non-orthogonal grid) but what is written must be
 # valid.  Case i of the kind uses pair i of the 15 pairs, sometimes with a third.
-COMBO = ("nonorth", "smoothnl", "curv", "guards", "workers", "interp")
+COMBO = ("nonorth", "smoothnl", "curv", "guards", "workers", "interp", "revcur",
+         "dn_connected")
 COMBO_PAIRS = [(a, b) for ia, a in enumerate(COMBO) for b in COMBO[ia + 1:]]
 
 
@@ -335,6 +336,14 @@ def apply_combo(rng, case, frags):
             case["np"] = rng.choice((2, 3))
         elif fr == "interp" and not circ:
             o["psi_interpolation_method"] = "dct"
+        elif fr == "revcur" and not circ:
+            o["reverse_current"] = True
+        elif fr == "dn_connected" and not circ:
+            # a slightly disconnected double null gridded as a connected one (the
+            # default nx_inter_sep): supported when the second X-point is close enough,
+            # refused otherwise
+            o["nx_inter_sep"] = 0
+            o["nx_sol"] = rng.choice((1, 2, 2, 3))  # calibrated: 1-2 mostly generate
     return case
 
 # a damaged stored input: one numeric field of the geqdsk text replaced by what equilibrium
@@ -414,9 +423,22 @@ def combo_case(rng, key, i):
         extra = rng.choice(COMBO)
         if extra not in frags:
             frags.append(extra)
+    if ("revcur" in frags or "dn_connected" in frags) and case["geometry"] is None:
+        case["entry"] = ("geqdsk", "api-tok")[i % 2]
+        case["geometry"] = rng.choice(("lsn", "cdn", "usn"))
+        case["options"] = workloads.tok_options(case["geometry"],
+                                                y_boundary_guards=rng.choice((0, 1)))
+    if "dn_connected" in frags:
+        case["geometry"] = rng.choice(("udn", "ldn", "udn2"))
+        case["options"] = workloads.tok_options(case["geometry"],
+                                                y_boundary_guards=rng.choice((0, 1)))
     if "interp" in frags and case["geometry"] not in (None, "lsn", "usn"):
-        case["geometry"] = "lsn"  # the double nulls of this workload are refused with dct
-        case["options"] = workloads.tok_options("lsn", y_boundary_guards=rng.choice((0, 1)))
+        if "dn_connected" in frags:
+            frags.remove("interp")  # the double nulls of this workload are refused with dct
+        else:
+            case["geometry"] = "lsn"
+            case["options"] = workloads.tok_options("lsn",
+                                                    y_boundary_guards=rng.choice((0, 1)))
     case["fault"]["combo"] = frags
     return apply_combo(rng, case, frags)
 
